@@ -156,24 +156,51 @@ def resampleStep (W : World α P MS TS G) (c : CCfg α) (h : List (CBatch α P))
 structure Drawn (α P G : Type) where
   pts : List P
   logl : List α
-  /-- `some z`: the warm-up correction `log(n_finite / n_total)` overwrites the evidence -/
+  /-- `some z`: the warm-up correction `log(n_finite / n_drawn)` overwrites the evidence -/
   logz : Option α
+  /-- `n_drawn`: every prior draw evaluated, the discarded all-(−inf) batches included (`calls += n_drawn`) -/
+  drawn : Nat
   g : G
 
+/-- the literal `1000` of `if n_drawn >= 1000 * self.n_particles: raise ValueError` -/
+def drawCap : Nat := 1000
+
+/-- the first draw and the redraw loop
+        u = rand(n, d); x = …; logl = like(x); n_drawn = n
+        while np.all(np.isinf(logl)):
+            if n_drawn >= 1000 * n: raise ValueError
+            u = rand(n, d); x = …; logl = like(x); n_drawn += n
+    `drawn` = draws made before this call; result `(records, logl, n_drawn, generator)`; `none` = the ValueError.
+    The fuel is the number of batches that may still be drawn: `drawCap` suffices (`Props.C10.drawLoop_fuel`). -/
+def drawLoop (W : World α P MS TS G) (n : Nat) : Nat → G → Nat → Option (List P × List (Option α) × Nat × G)
+  | 0, _, _ => none
+  | fuel + 1, g, drawn =>
+    let dg := W.priorDraw g n
+    let ls := dg.1.map W.like
+    let nd := drawn + n
+    if countSome ls = 0 then
+      (if nd ≥ drawCap * n then none else drawLoop W n fuel dg.2 nd)
+    else some (dg.1, ls, nd, dg.2)
+
+/-- `Mutator.run` at beta = 0 after the draw loop: the replacement branch is taken when the kept batch has a −inf draw
+    OR batches were discarded (`np.any(inf_logl_mask) or n_drawn > n_particles`); `np.random.choice` is called only when
+    there is something to replace; the correction is `log(n_finite / n_drawn)` -/
 def warmupStep (W : World α P MS TS G) (c : CCfg α) (g : G) : Option (Drawn α P G) :=
   let n := c.rw.nPart
-  let dg := W.priorDraw g n
-  let ls := dg.1.map W.like
-  let nfin := countSome ls
-  if nfin < ls.length then
-    let infIdx := (List.range ls.length).filter fun i => !((ls[i]?).join.isSome)
-    let finIdx := (List.range ls.length).filter fun i => (ls[i]?).join.isSome
-    let z := ScT.log (Sc.div (Sc.ofNat nfin) (Sc.ofNat ls.length))
-    if nfin > 0 then
-      let cg := W.choice dg.2 finIdx infIdx.length
-      (allSome (scatterFrom ls infIdx cg.1)).map fun l => ⟨scatterFrom dg.1 infIdx cg.1, l, some z, cg.2⟩
-    else (allSome ls).map fun l => ⟨dg.1, l, some z, dg.2⟩
-  else (allSome ls).map fun l => ⟨dg.1, l, none, dg.2⟩
+  (drawLoop W n drawCap g 0).bind fun d =>
+    let pts := d.1
+    let ls := d.2.1
+    let nd := d.2.2.1
+    let nfin := countSome ls
+    if nfin < ls.length || n < nd then
+      let infIdx := (List.range ls.length).filter fun i => !((ls[i]?).join.isSome)
+      let finIdx := (List.range ls.length).filter fun i => (ls[i]?).join.isSome
+      let z := ScT.log (Sc.div (Sc.ofNat nfin) (Sc.ofNat nd))
+      if infIdx.length > 0 then
+        let cg := W.choice d.2.2.2 finIdx infIdx.length
+        (allSome (scatterFrom ls infIdx cg.1)).map fun l => ⟨scatterFrom pts infIdx cg.1, l, some z, nd, cg.2⟩
+      else (allSome ls).map fun l => ⟨pts, l, some z, nd, d.2.2.2⟩
+    else (allSome ls).map fun l => ⟨pts, l, none, nd, d.2.2.2⟩
 
 /-! ### `BaseMCMCRunner.run` -/
 
@@ -277,7 +304,7 @@ def iterate (W : World α P MS TS G) (c : CCfg α) (s : CState α P TS G) :
       (warmupStep W c tr.2.2).bind fun d =>
         if d.logl.isEmpty then none else
         let lz := match d.logz with | some z => z | none => r.logz
-        some (commit { s with beta := r.beta, logz := lz, ess := r.ess, iter := iter, calls := s.calls + c.rw.nPart,
+        some (commit { s with beta := r.beta, logz := lz, ess := r.ess, iter := iter, calls := s.calls + d.drawn,
                               cur := d.pts, curL := d.logl, assign := List.replicate c.rw.nPart 0, steps := 1,
                               acceptance := Sc.one, efficiency := Sc.one, ts := tr.2.1, g := d.g },
               ⟨r.beta, r.ess, r.logz, lz, r.branch, w, none, [], [], []⟩)
@@ -315,9 +342,14 @@ def runLoop (W : World α P MS TS G) (c : CCfg α) :
 /-- the epilogue: `_, logz = compute_logw_and_logz(1.0); set_current("logz", logz)` -/
 def finalLogz (s : CState α P TS G) : Option α := (logw (batchesOf s.hist) Sc.one true).2
 
+/-- the head of `run_sampling`: a state with committed history (loaded by `load_state` / `resume_state_path`, or left by a
+    finished run) is CONTINUED; only an empty one is initialised (`_initialize_fresh`: iter, calls, beta, logz := 0) -/
+def startState (s : CState α P TS G) : CState α P TS G :=
+  if s.hist.isEmpty then { s with iter := 0, calls := 0, beta := Sc.zero, logz := Sc.zero } else s
+
 def runSampling (W : World α P MS TS G) (c : CCfg α) (fuel : Nat) (s : CState α P TS G) :
     Option (CState α P TS G × List (CState α P TS G) × List (CIterOut α P)) :=
-  (runLoop W c fuel s).bind fun q => (finalLogz q.1).map fun z => ({ q.1 with logz := z }, q.2.1, q.2.2)
+  (runLoop W c fuel (startState s)).bind fun q => (finalLogz q.1).map fun z => ({ q.1 with logz := z }, q.2.1, q.2.2)
 
 /-! ### what a checkpoint holds (`StateManager.to_dict()`: current values + history; the clusterer and the random
     stream are pickled with the sampler object) -/
